@@ -26,24 +26,43 @@ def logicName : Option Bool → String
 def codeName : Code → String
   | .ok => "ok" | .re lg => "re" ++ logicName lg | .already => "already" | .busy => "busy"
 
-def showAcct (a : Acct) : String :=
-  if a.player.isNone && a.task.isNone && a.pend.isEmpty then " -"
+/-- driver state: the model state, the parts of the record the harness could not read out of the code
+under test (`reset unres=L,S`: echoed as `?`), and per account the login requests issued and not yet
+answered with their issue times (for the "two possibly expired parked logins" rule) -/
+structure DState where
+  s : State := {}
+  unres : List String := []
+  unanswered : Nat → List (Nat × Nat) := fun _ => []
+
+def DState.un (d : DState) (k : String) : Bool := d.unres.contains k
+
+def showAcct (d : DState) (a : Acct) : String :=
+  if !d.un "P" && !d.un "T" && a.player.isNone && a.task.isNone && a.pend.isEmpty then " -"
   else
-    let p := match a.player with
+    let p :=
+      if d.un "P" then " st=?"
+      else match a.player with
       | some p =>
-        let lk := if p.lock.held then s!"{reasonName p.lock.reason}@{p.lock.timeout}" else "-"
-        s!" st={stateName p.state}@{p.stTimeout} lk={lk} c={p.front}:{p.net} lg={logicName p.logic}"
+        let lk := if d.un "L" then "?" else if p.lock.held then s!"{reasonName p.lock.reason}@{p.lock.timeout}" else "-"
+        let st := if d.un "S" then "?" else toString p.stTimeout
+        s!" st={stateName p.state}@{st} lk={lk} c={p.front}:{p.net} lg={logicName p.logic}"
       | none => " st=-"
-    let t := match a.task with
-      | some t => s!" tk={t.front}:{t.net}@{t.start}"
+    let t :=
+      if d.un "T" then " tk=?"
+      else match a.task with
+      | some t => if d.un "C" then " tk=?:?" else s!" tk={t.front}:{t.net}"
       | none => " tk=-"
     p ++ t ++ s!" po={a.pend.length}"
 
-def snapshot (s : State) : String :=
-  let accts := String.join (uids.map fun u => " |" ++ showAcct (s.accts u))
+def snapshot (d : DState) : String :=
+  let s := d.s
+  let accts := String.join (uids.map fun u => " |" ++ showAcct d (s.accts u))
   let np := (uids.filter fun u => (s.accts u).player.isSome).length
   let nt := (uids.filter fun u => (s.accts u).task.isSome).length
-  accts ++ s!" | nc={s.nextCheck} np={np} nt={nt}"
+  let nc := if d.un "N" then "?" else toString s.nextCheck
+  let np := if d.un "P" then "?" else toString np
+  let nt := if d.un "T" then "?" else toString nt
+  accts ++ s!" | nc={nc} np={np} nt={nt}"
 
 /-- insertion sort of the rendered kicks (the harness sorts them as strings) -/
 def insertStr (x : String) : List String → List String
@@ -70,14 +89,16 @@ def expiredNow (s : State) : List Nat :=
 
 inductive Parsed
   | op (o : Op)
-  | reset
+  | reset (unres : List String)
   | bad
 
 def validUid (u : Nat) : Bool := 1 ≤ u && u ≤ nAccts
 
 def parseOp (ws : List String) (pick : Option Nat) : Parsed :=
   match ws.head? with
-  | some "reset" => .reset
+  | some "reset" => .reset (match kv ws "unres" with
+      | some u => (u.splitOn ",").filter (· ≠ "")
+      | none => [])
   | some "tick" => .op .tick
   | some "adv" => match kvNat ws "ms" with
     | some ms => .op (.adv ms)
@@ -113,28 +134,55 @@ timeout?  (that path — C01's subject — is kept out of the driven histories) 
 def tooOld (s : State) (ms : Nat) : Bool :=
   uids.any fun u => (s.accts u).pend.any fun sent => decide (s.now + ms ≥ sent + 29000)
 
-def step (s : State) (line : String) : State × String :=
+/-- accounts with a login request issued more than 30 s ago and still unanswered (its parked task may
+have expired).  Two of them when a scan may run: the Go map order decides which parked login is dropped;
+such operations are not driven (the harness applies the same rule, from the observable history only). -/
+def staleUnanswered (d : DState) : Nat :=
+  (uids.filter fun u => (d.unanswered u).any fun e => decide (d.s.now > e.2 + 30000)).length
+
+def ackedIds (o : Out) : List Nat :=
+  o.evs.filterMap fun e => match e with | .ack id _ _ => some id | _ => none
+
+/-- bookkeeping of unanswered login requests after a step on account `u` -/
+def track (d : DState) (o : Op) (before : State) (out : Out) : Nat → List (Nat × Nat) :=
+  match o.uid with
+  | none => d.unanswered
+  | some u =>
+    let cur := d.unanswered u
+    let cur := match o with
+      | .login .. => cur ++ [((before.accts u).nextId + 1, before.now)]
+      | _ => cur
+    let acked := ackedIds out
+    upd d.unanswered u (cur.filter fun e => !acked.contains e.1)
+
+def step (d : DState) (line : String) : DState × String :=
   let ws := words line
+  let s := d.s
   let ex := expiredNow s
   match parseOp ws ex.head? with
-  | .bad => (s, "bad-op")
-  | .reset => ({}, "ok" ++ snapshot {})
+  | .bad => (d, "bad-op")
+  | .reset un =>
+    let d' : DState := { unres := un }
+    (d', "ok" ++ snapshot d')
   | .op o =>
-    if usesScan o && ex.length ≥ 2 then (s, "nondet")
+    if usesScan o && staleUnanswered d ≥ 2 then (d, "nondet")
     else match o with
     | .adv ms =>
-      if ms == 0 || tooOld s ms then (s, "refused")
+      if ms == 0 || tooOld s ms then (d, "refused")
       else
         let r := Cell2v.Center.step s o
-        (r.1, showOut 0 r.2 ++ snapshot r.1)
+        let d' := { d with s := r.1 }
+        (d', showOut 0 r.2 ++ snapshot d')
     | .offReply u _ =>
-      if (s.accts u).pend.isEmpty then (s, "none")
+      if (s.accts u).pend.isEmpty then (d, "none")
       else
         let r := Cell2v.Center.step s o
-        (r.1, showOut u r.2 ++ snapshot r.1)
+        let d' := { d with s := r.1, unanswered := track d o s r.2 }
+        (d', showOut u r.2 ++ snapshot d')
     | _ =>
       let r := Cell2v.Center.step s o
-      (r.1, showOut (o.uid.getD 0) r.2 ++ snapshot r.1)
+      let d' := { d with s := r.1, unanswered := track d o s r.2 }
+      (d', showOut (o.uid.getD 0) r.2 ++ snapshot d')
 
 /-! ### spec mode -/
 
@@ -173,7 +221,7 @@ def specLine (m : Spec.Mon) (line : String) : Spec.Mon × String :=
     else if obs.startsWith "<" then (m, "VIOLATION C18/harness-died " ++ opl)
     else match parseOp ws none with
     | .bad => (m, "ok")
-    | .reset => ({}, "ok")
+    | .reset _ => ({}, "ok")
     | .op o =>
       if !obs.startsWith "ret=" then (m, "ok")   -- refused / nondet / none: nothing happened
       else
